@@ -1,6 +1,7 @@
 package app
 
 import (
+	"bytes"
 	"encoding/hex"
 	"fmt"
 	"math"
@@ -265,6 +266,12 @@ func (app *App) txChecker() txChecker {
 		err := serialize.GetSerializer(serialize.NETWORK).Deserialize(msg.Tx, tx)
 		if err != nil {
 			app.logger.Errorf("checkTx failed to deserialize msg: %v, error: %s ", msg, err)
+		} else if !isCanonicalEncoding(tx, msg.Tx) {
+			app.Context.check.DiscardTxSession()
+			return ResponseCheckTx{
+				Code: CodeNotOK.uint32(),
+				Log:  errNonCanonicalTx,
+			}
 		}
 		txCtx := app.Context.Action(&app.header, app.Context.check)
 		handler := txCtx.Router.Handler(tx.Type)
@@ -330,6 +337,12 @@ func (app *App) txDeliverer() txDeliverer {
 		err := serialize.GetSerializer(serialize.NETWORK).Deserialize(msg.Tx, tx)
 		if err != nil {
 			app.logger.Errorf("deliverTx failed to deserialize msg: %v, error: %s ", msg, err)
+		} else if !isCanonicalEncoding(tx, msg.Tx) {
+			app.Context.deliver.DiscardTxSession()
+			return ResponseDeliverTx{
+				Code: CodeNotOK.uint32(),
+				Log:  errNonCanonicalTx,
+			}
 		}
 		txCtx := app.Context.Action(&app.header, app.Context.deliver)
 
@@ -455,6 +468,16 @@ func (app *App) commitor() commitor {
 		app.logger.Detail("Commit Result", result)
 		return result
 	}
+}
+
+const errNonCanonicalTx = "transaction is not in its canonical encoding"
+
+// isCanonicalEncoding tells whether raw is exactly the serialization of tx. The replay protection
+// (VerifyCache / GetTxFromCache) is keyed by the hash of the transaction bytes while signatures cover
+// the re-serialized content, so any other encoding of an executed transaction (whitespace, key order,
+// extra or duplicate keys, escapes) would be a new transaction to the index and execute again.
+func isCanonicalEncoding(tx *action.SignedTx, raw []byte) bool {
+	return bytes.Equal(tx.SignedBytes(), raw)
 }
 
 func getCode(ok bool) (code Code) {
